@@ -110,6 +110,8 @@ pub fn run(args: &[String]) {
             if n < 300 {
                 // same size as f32 / f64 but a different type (tolerance of the f32 newtype is f32's)
                 one::<New64>("newtype-f64(8 bytes)", New64, n, dir, &mut rng, &mut rep);
+                // a type whose zero() is not the all-zero bit pattern (values created by zeroing memory decode to NaN)
+                one::<Inv64>("inverted-bits-f64 (zero is not all-zero bits)", Inv64::new, n, dir, &mut rng, &mut rep);
                 one32(n, dir, &mut rng, &mut rep);
             }
         }
